@@ -3,14 +3,16 @@
 Model:      specs/GenSiblingsP.tla (P: the file is a function of <type, what it refers to, templates, options> -- a memo),
             specs/GenSiblings.tla (I: process-/object-wide state of the generator: UniqueNameGenerator singleton, the
             LimitEmptyLines counter, Jinja compile-time folding and import-module cache, the lru_cache'd dependency builder
-            with the key PyDSDL equality really gives it; actions StartRun/Compile/Render/Post), TLC proves I => P for the
+            with the key PyDSDL equality really gives it, the TokenEncoder.strop memo and the path tokens stropped for every
+            type of a run while the namespace tree is built; actions StartRun/Compile/Render/Post), TLC proves I => P for the
             repaired design and refutes each "as found" mechanism (negative controls).
 spec->code: (a) every violating history TLC finds in the negative controls is a predicted-defect stimulus, (b) every
             complete history of the repaired model (all subsets x orders x reuse modes) comes with the expected abstract
             files; both are replayed through the real DSDLCodeGenerator with "mirror" user templates whose lines map 1:1 to
             the model's abstract lines; compared after every file.
 code->spec: random DSDL namespaces (nested namespaces, several versions of one type with different dependencies, unions,
-            services, twins for size-preserving edits) through the built-in c/cpp/py/html templates and mirror templates:
+            services, twins for size-preserving edits, fields/constants spelled exactly like a sibling's namespace directory
+            or file stem: C reserved-pattern words, target keywords, plain words) through the built-in c/cpp/py/html templates and mirror templates:
             whole namespace / dependency-closed subsets / permuted order / PYTHONHASHSEED / reused LanguageContext /
             reused generator object with other generate_all flags / edited definitions; every written file is logged by a
             harness FilePostProcessor and judged by specs/GenSiblingsTrace.tla (clause sib.digest).
@@ -52,6 +54,8 @@ def mirror_files(shape, lang):
         s += '{%% set b = "v" %%}D {{ b | %s }}\n' % uf
     if shape["mod"]:
         s += '{% from "helper.j2" import mac, modlevel %}M {{ modlevel }} {{ mac() }}\n'
+    if shape.get("nam") and lang in ("c", "cpp", "py"):
+        s += "{% for a in T.attributes if a.name %}N {{ a | id }}\n{% endfor %}"
     if shape["inc"] and lang in ("c", "cpp"):
         s += "{% for i in T | includes %}I {{ i }}\n{% endfor %}"
     s += "\n" * shape["trail"]
@@ -78,6 +82,8 @@ def mirror_tokens(text, names):
             toks.append([ln[0], int(m.group(1)) if m else ln[2:]])
         elif ln.startswith("M "):
             toks.append(["M"] + [int(x) for x in _RE_UV.findall(ln)])
+        elif ln.startswith("N "):
+            toks.append(["N", ln[2:]])
         elif ln.startswith("I "):
             p = ln[2:].strip().strip('<>"')
             stem = p.rsplit(".", 1)[0]
@@ -96,7 +102,7 @@ def mirror_tokens(text, names):
 _RE_UNIQ = re.compile(r"_[a-z][a-z_]*?\d+_")
 _RE_INC = re.compile(r"^\s*(#\s*include\b.*|import\s.*|from\s.*\simport\s.*)$")
 _RE_B85 = re.compile(r"^\s+'[0-9A-Za-z!#$%&()*+\-;<=>?@^_`{|}~]+'$")
-NORMS = "buim"  # blank lines, unique names, include/import lines, pickled model (py)
+NORMS = "buims"  # blank lines, unique names, include/import lines, pickled model (py), stropping affixes (underscores)
 
 
 def norm_hashes(text):
@@ -104,8 +110,10 @@ def norm_hashes(text):
     (which kind of line differs -> signature), never to judge"""
     lines = text.split("\n")
     res = {}
-    for mask in range(1, 16):
+    for mask in range(1, 32):
         ls = lines
+        if mask & 16:
+            ls = [l.replace("_", "") for l in ls]
         if mask & 1:
             ls = [l for l in ls if l.strip() != ""]
         if mask & 2:
@@ -443,9 +451,14 @@ def worker_main(jobfile, outfile):
 # Part 2 - scenario construction (main process)
 # =====================================================================================================================
 
-def model_defsets(ntypes=4):
+MODEL_WORDS = {1: ["strobe", "total", "island", "memory", "atomic_x", "isle"], 2: ["plain", "speed"], 3: ["plain"]}
+
+
+def model_defsets(ntypes=4, stem=None):
     """DSDL for the definition sets of GenSiblings.tla: A1/A2 are twins (same size), A3 refers to A1 (set 1), A2 (set 2) or both
-    (set 3) - in sets 1 and 2 it keeps name, version and bit-length set -, A4 refers to A3."""
+    (set 3) - in sets 1 and 2 it keeps name, version and bit-length set -, A4 refers to A3.  With `stem` the second type is named
+    <stem> (its file stem / path token is <stem>_1_0) and the first type - which does not refer to it - has a field of exactly
+    that spelling."""
     res = []
     for d in (1, 2, 3):
         f = {"mr/A1.1.0.dsdl": "bool x\ntruncated uint12[<=3] xs\n@sealed\n", "mr/A2.1.0.dsdl": "bool y\ntruncated uint12[<=3] ys\n@sealed\n"}
@@ -453,6 +466,9 @@ def model_defsets(ntypes=4):
                                3: "@union\nuint16[1] u\nmr.A1.1.0 a\nmr.A2.1.0 b\n@sealed\n"}[d]
         if ntypes >= 4:
             f["mr/A4.1.0.dsdl"] = "mr.A3.1.0[<=2] q\nbool w\n@sealed\n"
+        if stem:
+            f = {k.replace("A2.1.0", stem + ".1.0"): v.replace("mr.A2.1.0", "mr.%s.1.0" % stem) for k, v in f.items()}
+            f["mr/A1.1.0.dsdl"] = f["mr/A1.1.0.dsdl"].replace("@sealed", "uint8 %s_1_0\n@sealed" % stem)
         res.append(f)
     return res
 
@@ -462,13 +478,21 @@ def model_scenario(sid, rec, lang, kind, builtin=False):
     history of subsets/orders/reuse modes/definition sets through the built-in templates)"""
     shape = {k: (bool(v) if k in ("mod", "inc") else int(v)) for k, v in rec["shape"].items()}
     limit = int(rec["limit"])
+    shape.setdefault("nam", False)
+    stem = None
+    if shape["nam"]:
+        ws = MODEL_WORDS[int(rec.get("word", 2))]
+        stem = ws[sid % len(ws)]
+        if lang == "html":
+            lang = "c"  # the html target has no identifier filter
+    tname = {t: ("mr.%s.1.0" % stem if (stem and t == 2) else "mr.A%d.1.0" % t) for t in range(1, 5)}
     if limit == 0 and (shape["lead"] or shape["trail"]) and lang in ("c", "py"):
         lang = {"c": "cpp", "py": "html"}[lang]  # c and py add LimitEmptyLines(1) of their own: "no limiter" does not exist there
     runs, expect = [], []
     for r in rec["runs"]:
         mode = r["mode"]
         runs.append({
-            "d": int(r["d"]) - 1, "types": ["mr.A%d.1.0" % t for t in r["ord"]], "lang": lang,
+            "d": int(r["d"]) - 1, "types": [tname[t] for t in r["ord"]], "lang": lang,
             "lctx": "same" if mode in ("lctx", "gen") else "fresh", "gen": "same" if mode == "gen" else "fresh",
             "omit": bool(r["omit"]), "pps": {"limit": limit - 1} if limit > 0 else {"limit": None}, "tap": True,
         })
@@ -477,12 +501,19 @@ def model_scenario(sid, rec, lang, kind, builtin=False):
         for r in runs:
             if lang in ("cpp", "html") and limit == 0:
                 r["pps"], r["tap"] = {"limit": None}, (sid % 2 == 0)
-        return {"sid": sid, "kind": kind + "/builtin", "defsets": model_defsets(), "rootns": "mr", "lookup": [], "tpl": {"id": "builtin"},
+        return {"sid": sid, "kind": kind + "/builtin", "defsets": model_defsets(stem=stem), "rootns": "mr", "lookup": [], "tpl": {"id": "builtin"},
                 "names": {}, "runs": runs}
-    return {"sid": sid, "kind": kind, "defsets": model_defsets(), "rootns": "mr", "lookup": [], "tpl": {"id": "mirror", "shape": shape},
-            "names": {"mr/A%d_1_0" % i: i for i in range(1, 5)}, "runs": runs, "expect": expect}
+    names = {"mr/A%d_1_0" % i: i for i in range(1, 5)}
+    if stem:
+        names["mr/%s_1_0" % stem] = 2
+    return {"sid": sid, "kind": kind, "defsets": model_defsets(stem=stem), "rootns": "mr", "lookup": [], "tpl": {"id": "mirror", "shape": shape},
+            "names": names, "tname": tname, "runs": runs, "expect": expect}
 
 
+# spellings shared between a path token of one type (namespace component / file stem) and a field or constant of ANOTHER type:
+# words the C configuration reserves by pattern for identifiers but not for paths, keywords of the targets, plain words
+SHARED_WORDS = ["strobe", "total", "island", "memory", "atomic_x", "isle", "strong", "register", "class", "lambda", "del", "double",
+                "namespace", "plain", "speed"]
 FIELD_NAMES = ["f%d", "f%d", "f%d", "class%d", "double", "register", "isok%d", "memx%d", "typename", "namespace", "lambda", "str%d", "None%d", "del"]
 PRIMS = ["uint8", "uint16", "int32", "float32", "bool", "saturated uint7", "truncated uint12", "float64", "int3", "uint64", "float16"]
 
@@ -574,6 +605,21 @@ def rand_namespace(rng):
     b.add("R0", (1, rng.randint(0, 2)), kind=rng.choice(["struct", "union"]),
           fields=[(b.ref(leaf0), "a"), (rng.choice(PRIMS), "b")] + ([(b.ref(leaf0) + "[<=2]", "c")] if rng.random() < 0.5 else []))
     b.add("R1", (1, 0), kind="struct", fields=[(b.ref(b.types[-1]), "r"), (rng.choice(PRIMS), "s")])
+    # shared spellings: a sibling lives in a nested namespace called <w> (or is itself called <w>: file stem <w>_1_0) and a type
+    # that does not refer to it has a field / constant spelled exactly like that path token
+    observers = [t for t in b.types if t["kind"] == "struct" and not t.get("ext")]
+    for i, w in enumerate(rng.sample(SHARED_WORDS, rng.randint(1, 3))):
+        obs = rng.choice(observers)
+        if rng.random() < 0.7:
+            b.add("Sib%d" % i, (1, 0), ns=w, kind="struct", fields=[(rng.choice(PRIMS), "v")])
+            spelled = w
+        else:
+            b.add(w, (1, 0), ns=rng.choice([""] + b.subs), kind="struct", fields=[(rng.choice(PRIMS), "v")])
+            spelled = w + "_1_0"
+        if rng.random() < 0.75:
+            obs["fields"] = obs["fields"] + [(rng.choice(PRIMS), spelled)]
+        else:
+            obs["pre"] = (obs.get("pre") + "\n" if obs.get("pre") else "") + "uint8 %s = %d" % (spelled, i + 1)
     d0 = b.files()
     defsets = [d0]
     edits = []
@@ -648,7 +694,7 @@ def write_defs_new(root, files):
 
 def rand_shape(rng):
     return {"lead": rng.choice([0, 0, 1, 2, 3]), "trail": rng.choice([0, 1, 2, 3]), "lit": rng.choice([0, 1, 2, 3]), "dyn": rng.choice([0, 1, 2]),
-            "mod": rng.random() < 0.4, "inc": rng.random() < 0.6}
+            "mod": rng.random() < 0.4, "inc": rng.random() < 0.6, "nam": rng.random() < 0.5}
 
 
 LANGOPTS = {"c": [None, None, {"target_endianness": "big"}, {"enable_serialization_asserts": True}],
@@ -768,6 +814,31 @@ def canonical_scenarios(sid0):
     return res
 
 
+def canonical_spelling_scenarios(sid0):
+    """a field / constant of the observed types is spelled exactly like a path token (nested namespace directory or file stem) of
+    a sibling they do not refer to: whole namespace vs the dependency-closed subset without the siblings vs other order vs reused
+    LanguageContext, for the targets with an identifier filter"""
+    words = ["strobe", "total", "island", "memory", "atomic_x", "register", "lambda", "plain"]
+    defs = {"vr/Obs.1.0.dsdl": "".join("uint8 %s\n" % w for w in words) + "uint8 isle_1_0\nuint8 speed_1_0\n@sealed\n",
+            "vr/Kon.1.0.dsdl": "uint8 total = 2\nuint8 memory = 3\nuint8 strobe = 4\nuint8 plain = 5\nuint8 x\n@sealed\n",
+            "vr/User.1.0.dsdl": "vr.Obs.1.0 o\nvr.Kon.1.0[<=2] c\nuint8 island\n@sealed\n",
+            "vr/isle.1.0.dsdl": "uint8 v\n@sealed\n", "vr/speed.1.0.dsdl": "uint8 v\n@sealed\n"}
+    for i, w in enumerate(words):
+        defs["vr/%s/S%d.1.0.dsdl" % (w, i)] = "uint8 v\n@sealed\n"
+    sub = ["vr.Obs.1.0", "vr.Kon.1.0"]
+    sub3 = ["vr.User.1.0", "vr.Kon.1.0", "vr.Obs.1.0"]
+    res = []
+    for lang in ("c", "cpp", "py"):
+        for tpl in ({"id": "builtin"}, {"id": "mirror", "shape": {"lead": 0, "trail": 0, "lit": 0, "dyn": 0, "mod": False, "inc": False, "nam": True}}):
+            base = {"lang": lang, "langopts": None, "pps": {"limit": None}, "tap": True, "omit": False, "embed": False, "d": 0, "gen": "fresh"}
+            runs = [dict(base, types=None, lctx="fresh"), dict(base, types=sub, lctx="fresh"), dict(base, types=None, lctx="same"),
+                    dict(base, types=sub3, lctx="same"), dict(base, types=list(reversed(sub)), lctx="fresh"), dict(base, types=None, lctx="same"),
+                    dict(base, types=sub3, lctx="fresh")]
+            res.append({"sid": sid0 + len(res), "kind": "canonical", "defsets": [defs], "rootns": "vr", "lookup": [], "tpl": tpl, "names": {},
+                        "runs": runs})
+    return res
+
+
 # =====================================================================================================================
 # Part 3 - driver, judgement
 # =====================================================================================================================
@@ -821,7 +892,7 @@ def finish_event(ev):
     return ev
 
 
-NORM_NAMES = {1: "blank-lines", 2: "unique-names", 4: "include-list", 8: "pickled-model"}
+NORM_NAMES = {1: "blank-lines", 2: "unique-names", 4: "include-list", 8: "pickled-model", 16: "identifier-stropping"}
 
 
 def mirror_parts(toks):
@@ -853,17 +924,19 @@ def diff_classes(e1, e2):
             res.append("unique-names:imported-module")
         if b1.get("I") != b2.get("I") or b1.get("S") != b2.get("S"):
             res.append("include-list")
+        if b1.get("N") != b2.get("N"):
+            res.append("identifier-stropping")
         if b1.get("T") != b2.get("T") or b1.get("?") != b2.get("?") or not res:
             res.append("other")
         return res
     h1, h2 = e1["nh"], e2["nh"]
     best = None
-    for mask in range(1, 16):
+    for mask in range(1, 32):
         if h1.get(str(mask)) == h2.get(str(mask)) and (best is None or bin(mask).count("1") < bin(best).count("1")):
             best = mask
     if best is None:
         return ["other"]
-    return [NORM_NAMES[b] for b in (1, 2, 4, 8) if best & b]
+    return [NORM_NAMES[b] for b in (1, 2, 4, 8, 16) if best & b]
 
 
 def describe(sc, ev):
@@ -979,12 +1052,15 @@ def compare_expected(ctx, sc, evs, rej, perturb=None):
             mism.append((ri, None, "number of files %d, model %d" % (len(lst), len(exp))))
             continue
         for fi, ((t, out), ev) in enumerate(zip(exp, lst)):
-            want = [list(x) for x in out if keep_inc or x[0] not in ("I", "S")]
-            want = [["T", "mr.A%d.1.0" % x[1]] if x[0] == "T" else x for x in want]
+            tname = sc.get("tname") or {}
+            tn = lambda i: tname.get(i, tname.get(str(i), "mr.A%d.1.0" % i))  # noqa: E731 (keys are strings after a JSON round trip)
+            # how a name is stropped is the target configuration's business (C09): the I-comparison leaves N lines out
+            want = [list(x) for x in out if (keep_inc or x[0] not in ("I", "S")) and x[0] != "N"]
+            want = [["T", tn(x[1])] if x[0] == "T" else x for x in want]
             if perturb is not None and perturb == (ri, fi):
                 want = want + [["E"]]
-            got = ev.get("toks")
-            if ev["type_name"] != "mr.A%d.1.0" % t or got != want:
+            got = [x for x in (ev.get("toks") or []) if x[0] != "N"]
+            if ev["type_name"] != tn(t) or got != want:
                 mism.append((ri, ev, "model expects %s, code wrote %s" % (json.dumps(want), json.dumps(got))))
     return mism
 
@@ -1015,6 +1091,7 @@ def run(ctx):
     run_model(ctx, "GenSiblings_limiter", consts % 3 + " lead,trail in 0..2 limit in {none,0,1,2}")
     run_model(ctx, "GenSiblings_uniq", consts % 3 + " lit 0..2 dyn 0..1 mod")
     run_model(ctx, ctx.pick("GenSiblings_depsq", "GenSiblings_deps"), "NTypes=%d MaxRuns=3 defsets{1,2,3} omit{F,T}" % ctx.pick(3, 4))
+    run_model(ctx, "GenSiblings_names", consts % 3 + " shared spelling of a sibling's path token and a field; words{path-clean/any-reserved,plain,keyword}")
     if not ctx.quick:
         run_model(ctx, "GenSiblings", "NTypes=3 MaxRuns=2 mixed shapes(32) limit{none,1} defsets{1,2}")
 
@@ -1022,7 +1099,7 @@ def run(ctx):
     sid = 0
     scen = {}
     neg_names = {"neg_limiter": "ResetLimiter=FALSE", "neg_depkey": "IdentityDepKey=FALSE", "neg_fold": "VolatileUniq=FALSE",
-                 "neg_module": "FreshModule=FALSE"}
+                 "neg_module": "FreshModule=FALSE", "neg_strop": "FullStropKey=FALSE (stropping memo keyed by spelling only)"}
     ctx.cov["model_negative_controls"] = {}
     pred = {}
     for cfg, flag in neg_names.items():
@@ -1033,13 +1110,14 @@ def run(ctx):
         ctx.cov["model_negative_controls"][cfg] = "%s refuted: %d violating histories in %d states" % (flag, len(hs), res.distinct)
         step = max(1, len(hs) // ctx.pick(24, 120))
         for i, h in enumerate(hs[::step]):
-            sc = model_scenario(sid, h, ("cpp" if cfg == "neg_fold" else ["c", "cpp", "py", "html"][i % 4]) if cfg != "neg_depkey" else ["c", "cpp"][i % 2],
-                                "predicted:" + cfg)
+            plang = {"neg_fold": ["cpp"], "neg_depkey": ["c", "cpp"], "neg_strop": ["c", "c", "cpp", "py"]}.get(cfg, ["c", "cpp", "py", "html"])
+            sc = model_scenario(sid, h, plang[i % len(plang)], "predicted:" + cfg)
             scen[sid] = sc
             pred[sid] = cfg
             sid += 1
-            if i % 3 == 0 and cfg in ("neg_depkey", "neg_limiter"):
-                scen[sid] = model_scenario(sid, h, LANGS[(i // 3) % 4] if cfg == "neg_limiter" else ["c", "cpp"][(i // 3) % 2], "predicted:" + cfg, builtin=True)
+            if i % 3 == 0 and cfg in ("neg_depkey", "neg_limiter", "neg_strop"):
+                blang = {"neg_limiter": LANGS, "neg_strop": ["c", "c", "py", "cpp"]}.get(cfg, ["c", "cpp"])
+                scen[sid] = model_scenario(sid, h, blang[(i // 3) % len(blang)], "predicted:" + cfg, builtin=True)
                 sid += 1
     n_pred = sid
 
@@ -1047,7 +1125,7 @@ def run(ctx):
     cases = run_model(ctx, ctx.pick("GenSiblings_emitq", "GenSiblings_emit"), "MaxRuns=2 (emission, repaired model)", emit=True).json_lines()
     if len(cases) < 500:
         raise MachineryFailure("too few histories emitted: %d" % len(cases))
-    step = max(1, len(cases) // ctx.pick(240, 2000))
+    step = max(1, len(cases) // ctx.pick(220, 2000))
     for i, h in enumerate(cases[::step]):
         scen[sid] = model_scenario(sid, h, LANGS[i % 4], "model")
         sid += 1
@@ -1071,8 +1149,11 @@ def run(ctx):
     for sc in canonical_scenarios(sid):
         scen[sc["sid"]] = sc
         sid += 1
+    for sc in canonical_spelling_scenarios(sid):
+        scen[sc["sid"]] = sc
+        sid += 1
     fixed = random.Random(20260926)
-    n_random = ctx.pick(140, 1200)
+    n_random = ctx.pick(130, 1200)
     for i in range(n_random):
         scen[sid] = rand_scenario(ctx, sid, fixed if i < n_random // 3 else ctx.rng)
         sid += 1
